@@ -2,7 +2,7 @@
 """hvprops.py -- one check function per property (see DESIGN.md section 6)."""
 import os, re, sys, json, time, random, subprocess
 import hvlib as H
-import gen_map, gen_arith
+import gen_map, gen_arith, gen_set
 
 M64 = (1 << 64) - 1
 ISIZE_MAX = (1 << 63) - 1
@@ -448,8 +448,21 @@ def check_c18(run):
     }
     return H.finish(run, cov, "proof", assumptions=[cov["partial"]])
 
+def gen_set_scripts(tier, seed, variant):
+    rng = random.Random(seed)
+    n = 48 if tier == "quick" else 160
+    return "".join(gen_set.make_script(rng, f"s{seed}_{i}") for i in range(n))
+
+def check_c07(run):
+    return script_property(
+        run, gen_set_scripts,
+        relevant=lambda f: f.kind in ("A-FAIL", "CRASH") or (f.kind == "H-FAIL" and any(k in f.text for k in ("size_hint", "fold differs", "symmetric", "retain called"))),
+        rule="histories over two HashSets A and B built by different interleavings (so equal sets differ in layout, capacity, tombstones), 8 hash-plan classes, universes 5..90, all |A| vs |B| orderings; binary operations union / intersection / difference / symmetric_difference / is_subset / is_superset / is_disjoint / == / | & ^ - / |= &= ^= -= : the exact output SEQUENCE must equal the extracted SetAlg pipeline applied to the two dumped iteration orders (level C), and the result as a set must equal the mathematical result computed from the abstract contents (level A); single-set operations (insert, replace, take, get, get_or_insert, get_or_insert_with incl. the non-equivalent-value refusal, remove, entry, retain, drain, extract_if) go through model_step / AssocSpec like C01; Difference::size_hint is checked at every step by the harness",
+        nontrivial_keys=("set_a_larger", "set_a_smaller_or_equal"))
+
 PROPS = {
     "C17": check_c17,
+    "C07": check_c07,
     "C01": check_c01,
     "C18": check_c18,
 }
